@@ -70,8 +70,12 @@ class C12(InputProp):
                     names = [""]
                 for nm in names:
                     cases.append((lang, nsid, nm))
-        self.space = Items(cases, name="site-ns-name")
+        # two sites in one process: after a handler for site A has been built and used, site B must still answer from ITS OWN
+        # namespace table - asked with every namespace name and alias that ANY bundled site knows
+        pairs = [("@after", a, b) for a in SITES_ALL for b in SITES_ALL if a != b and (tier != "quick" or a in ("en", "de", "es", "simple") or b in ("en", "simple"))]
+        self.space = Items(cases + pairs, name="site-ns-name")
         self._handlers = {}
+        self._allnames = None
 
     def handler(self, lang):
         if lang not in self._handlers:
@@ -90,7 +94,60 @@ class C12(InputProp):
                 ids.add(al["id"])
         return len(ids) > 1
 
+    def all_names(self):
+        if self._allnames is None:
+            names = set()
+            for lang in SITES_ALL:
+                si = self.siteinfo.get_siteinfo(lang)
+                for ns in si["namespaces"].values():
+                    names.update(x for x in (ns["*"], ns.get("canonical")) if x)
+                names.update(al["*"] for al in si.get("namespacealiases", []))
+            self._allnames = sorted(names)
+        return self._allnames
+
+    def run_after(self, first, lang):
+        sia, sib = self.siteinfo.get_siteinfo(first), self.siteinfo.get_siteinfo(lang)
+        ha = self.nshandling.NsHandler(sia)
+        ha.splitname("Talk:x", 0)
+        for al in sia.get("namespacealiases", [])[:3]:
+            ha.splitname(al["*"] + ":x", 0)
+        hb = self.nshandling.NsHandler(sib)
+        cap = sib["general"].get("case") == "first-letter"
+        table = {}
+        for k, ns in sib["namespaces"].items():
+            for x in (ns["*"], ns.get("canonical")):
+                if x:
+                    table.setdefault(x.lower(), set()).add(int(k))
+        for al in sib.get("namespacealiases", []):
+            table.setdefault(al["*"].lower(), set()).add(al["id"])
+        viol = {}
+        n = 0
+        for name in self.all_names():
+            ids = table.get(name.lower(), set())
+            if len(ids) > 1:
+                continue
+            for spelled in (name, name.lower()):
+                title = spelled + ":x y"
+                if ids:
+                    nsid = next(iter(ids))
+                    local = sib["namespaces"][str(nsid)]["*"]
+                    exp = (nsid, "X y" if cap else "x y", (local + ":" if local else "") + ("X y" if cap else "x y"))
+                else:
+                    t = title[:1].upper() + title[1:] if cap and len(title[:1].upper()) == 1 else title
+                    exp = (0, t, t)
+                n += 1
+                try:
+                    got = hb.splitname(title, 0)
+                except Exception as e:
+                    got = ("raised", type(e).__name__, str(e)[:60])
+                if got != exp and "after" not in viol:
+                    viol["after"] = {"sig": "other-site-first:%s" % ("ns" if got[0] != exp[0] else "name"),
+                                     "msg": "[%s, after a handler for %s was used in the same process] splitname(%r, 0) = %r, the site's own tables say %r" % (lang, first, title, got, exp)}
+        return {"key": {"@after:%s" % lang}, "steps": n, "viol": list(viol.values())}
+
     def run_case(self, case):
+        if case[0] == "@after":
+            return self.run_after(case[1], case[2])
         lang, nsid, nsname = case
         h = self.handler(lang)
         si = h.siteinfo
